@@ -3,6 +3,7 @@ package rules
 import (
 	"go/token"
 	"go/types"
+	"strings"
 
 	"golang.org/x/tools/go/ssa"
 
@@ -14,7 +15,7 @@ func init() {
 		ID: "C18",
 		Explanation: `R18.1 in drip.(*Writer).Write and Close every forward to the underlying writer is preceded, on every path where a validator is set, by a call of dw.Validate on the same slice, and a non-nil verdict cannot reach the forward; ` +
 			`R18.2 in ValidatingPool.GetWriter's validate closure the block index is incremented on every path (both modes) and in wound mode the verdict is sent before returning; ` +
-			`R18.3 the relay goroutine is joined before the file writer closes (shared with R16.4); R18.4 the drip buffer, the safekeeper buffer and the block validator's hashing context all use pwr.BlockSize. ` +
+			`R18.5 what is forwarded is the drip buffer itself, other data only under dw.offset == 0; R18.3 the relay goroutine is joined before the file writer closes (shared with R16.4); R18.4 the drip buffer, the safekeeper buffer and the block validator's hashing context all use pwr.BlockSize. ` +
 			`NOT decided: that wounds tile the written range in offset order, slicing independence (index arithmetic in drip.Write), block-aligned-prefix pass-through.`,
 		Assumptions: []string{"the underlying writer and the Validate callback are identified as the fields Writer / Validate of drip.Writer"},
 		Run:         runC18,
@@ -73,15 +74,20 @@ func runC18(c *core.Ctx) {
 	c.Rule("R18.1", "drip writer validates a block before forwarding it, and never forwards after a non-nil verdict")
 	c.Rule("R18.2", "validate closure: block index advances once on every path; wound verdict is sent")
 	c.Rule("R18.3", "relay goroutine joined before close (shared with R16.4)")
+	c.Rule("R18.5", "only the drip buffer is forwarded, or other data when nothing is pending")
 	c.Rule("R18.4", "drip buffer / safekeeper buffer / validator hashing context are one pwr.BlockSize block")
 
 	nfwd := 0
-	for _, name := range []string{"Writer.Write", "Writer.Close"} {
-		fn := c.P.Fn("pwr/drip", name)
-		if fn == nil {
-			c.Missing("R18.1", "pwr/drip."+name, "not found")
-			continue
+	var dripFns []*ssa.Function
+	for _, fn := range c.P.SrcFuncs() {
+		if strings.HasSuffix(core.PkgPathOf(fn), "/pwr/drip") && fn.Signature.Recv() != nil && core.TypeName(fn.Signature.Recv().Type()) == "pwr/drip.Writer" {
+			dripFns = append(dripFns, fn)
 		}
+	}
+	if c.P.Fn("pwr/drip", "Writer.Write") == nil || c.P.Fn("pwr/drip", "Writer.Close") == nil {
+		c.Missing("R18.1", "pwr/drip.(*Writer).Write/Close", "not found")
+	}
+	for _, fn := range dripFns {
 		isFwd := fieldInvoke("Writer", "Write")
 		isVal := fieldFuncCall("Validate")
 		for _, f := range allInstrs(fn, isFwd) {
@@ -126,7 +132,75 @@ func runC18(c *core.Ctx) {
 			}
 		}
 	}
-	c.Floor("R18.1", "forwards to the underlying writer", nfwd, 2)
+	c.Floor("R18.1", "forwards to the underlying writer", nfwd, 1)
+
+	// R18.5: what is forwarded is the writer's own buffer; data that does not come from dw.Buffer may be
+	// forwarded only when nothing is pending (dw.offset == 0), otherwise bytes are reordered
+	nArgs := 0
+	var checkArg func(fn *ssa.Function, site ssa.Instruction, arg ssa.Value, depth int)
+	checkArg = func(fn *ssa.Function, site ssa.Instruction, arg ssa.Value, depth int) {
+		fromBuffer, viaParam := true, []*ssa.Parameter{}
+		for _, o := range core.Origins(arg) {
+			for {
+				if sl, ok := o.(*ssa.Slice); ok {
+					o = sl.X
+					continue
+				}
+				break
+			}
+			if p, ok := o.(*ssa.Parameter); ok && depth < 2 && fn.Object() != nil && !fn.Object().Exported() {
+				viaParam = append(viaParam, p)
+				continue
+			}
+			if _, n, ok := core.FieldOf(o); ok && n == "Buffer" {
+				continue
+			}
+			fromBuffer = false
+		}
+		for _, p := range viaParam {
+			idx := -1
+			for i, q := range fn.Params {
+				if q == p {
+					idx = i
+				}
+			}
+			for _, caller := range dripFns {
+				core.Instrs(caller, func(in ssa.Instruction) {
+					if cl, ok := in.(*ssa.Call); ok && cl.Call.StaticCallee() == fn && idx >= 0 && idx < len(cl.Call.Args) {
+						checkArg(caller, in, cl.Call.Args[idx], depth+1)
+					}
+				})
+			}
+		}
+		if len(viaParam) > 0 && fromBuffer {
+			return
+		}
+		nArgs++
+		if fromBuffer {
+			c.Ok("R18.5", core.FnName(fn), "forwarded data "+core.Describe(arg)+" is the drip buffer", core.InstrPos(site), "derived from dw.Buffer")
+			return
+		}
+		empty := hasGuard(site, func(g core.Guard) bool {
+			bo, ok := g.Cond.(*ssa.BinOp)
+			if !ok {
+				return false
+			}
+			_, n, ok := core.FieldOf(bo.X)
+			z, isC := core.ConstInt(bo.Y)
+			if !ok || n != "offset" || !isC || z != 0 {
+				return false
+			}
+			return (bo.Op == token.EQL && g.Val) || (bo.Op == token.NEQ && !g.Val) || (bo.Op == token.GTR && !g.Val)
+		})
+		c.Check(empty, "R18.5", core.FnName(fn), "data forwarded past the buffer ("+core.Describe(arg)+") only when nothing is pending", core.InstrPos(site),
+			"guarded by dw.offset == 0", "data that does not come from the drip buffer is forwarded without checking that the buffer is empty: pending bytes are overtaken, blocks reach the validator misaligned and the pool out of order")
+	}
+	for _, fn := range dripFns {
+		for _, f := range allInstrs(fn, fieldInvoke("Writer", "Write")) {
+			checkArg(fn, f, f.(*ssa.Call).Call.Args[0], 0)
+		}
+	}
+	c.Floor("R18.5", "forwarded arguments", nArgs, 2)
 
 	gw := c.P.Fn("pwr", "ValidatingPool.GetWriter")
 	if gw == nil {
